@@ -11,7 +11,7 @@ import itertools
 import random
 import sys
 
-from .. import adeck, core, pipeline
+from .. import adeck, core, designcheck, pipeline, tlc
 from . import common_bool, common_univ
 
 KINDS = {'spurious', 'unowned', 'multi', 'wrongid', 'wrongprov', 'crash', 'void_not_m0',
@@ -76,6 +76,15 @@ def main():
                                              adeck.lattice_opts(d) + ['--max-inline-score', '0']], chk.seed)
     chk.cov['traces_validated_against_impl'] += chk.extra.get('pipeline_traces', 0)
     core.lap('per-pass validation (%d stage states)' % nst)
+    # expressions over duplicated surfaces (incl. duplicates of the auxiliary planes): PipelineD behaviours replayed
+    # into the real code with de-duplication on and validated against the reference meaning
+    try:
+        st = designcheck.run(chk, thorough, chk.seed, configs=designcheck.CONFIGS[1:], simulate=thorough)
+        chk.extra['design_replay'] = {k: v for k, v in st.items() if k != 'disagreements'}
+        chk.cov['traces_validated_against_impl'] += st['replayed']
+    except tlc.TLCFailure as exc:
+        chk.machinery(str(exc))
+    core.lap('design replay over duplicate classes')
     ids = sorted(recs)
     for tid in ids[:1] + ids[len(ids) // 2:len(ids) // 2 + 2]:
         chk.sample({'deck_text': recs[tid]['text'], 'opts': meta[tid]['opts'], 'verdict': verdicts.get(tid)})
